@@ -439,13 +439,24 @@ def check(mod, tier):
     rc = 0
     viol_count = 0
     replay_path = None
-    if unknown:
+    unreproduced_deaths = []
+    while unknown:
         idx, v, case = unknown[0]
         if case is None:
             case = mod.generate(run_rng(seed, mod.ID, idx), tier, idx)
         # confirm in isolation, shrink, re-confirm from the replay file
         r0 = run_isolated(mod, case, known_keys, builddir, tier)
         v0 = first_unknown(r0.get("viols"), known_keys)
+        if v0 is None and v.get("key") == "process-died":
+            # a worker of the pool died, but the same run executed alone (twice) is clean: not a property of the run (memory pressure with 16 workers, a kill from
+            # outside, ...). Reported as a harness verdict, never as a violation, and the remaining candidates are still examined.
+            r0b = run_isolated(mod, case, known_keys, builddir, tier)
+            if first_unknown(r0b.get("viols"), known_keys) is None:
+                print("harness verdict WORKER-DEATH-NOT-REPRODUCED for run %d (%s): executed alone twice without a violation; not counted" % (idx, v.get("detail")))
+                unreproduced_deaths.append(idx)
+                unknown.pop(0)
+                continue
+            v0 = first_unknown(r0b.get("viols"), known_keys)
         if v0 is None:
             print("HARNESS-ERROR violation in run %d (%s/%s) did not reproduce in isolation: non-deterministic harness" % (idx, v["oracle"], v["clause"]))
             rc = 2
@@ -464,6 +475,7 @@ def check(mod, tier):
             print("VIOLATION property=%s replay=%s" % (mod.ID, replay_path))
             rc = 1
             viol_count = len(unknown)
+        break
     for f in findings:
         if f.get("status") == "known" and known_hit.get(f["key"]):
             print("KNOWN-FINDING: property=%s %s (key=%s, hit in %d runs)" % (mod.ID, f["what"], f["key"], known_hit[f["key"]]))
@@ -491,7 +503,7 @@ def check(mod, tier):
             "faults_enabled_fired": faults,
             "reach_probes": probes,
             "known_findings_hit": known_hit,
-            "harness_verdicts": {"TIMEOUT": len(pr.timeouts), "WORKER-DEATH": len(pr.deaths), "HARNESS-ERROR": len(pr.harness_errors)},
+            "harness_verdicts": {"TIMEOUT": len(pr.timeouts), "WORKER-DEATH": len(pr.deaths), "WORKER-DEATH-NOT-REPRODUCED": len(unreproduced_deaths), "HARNESS-ERROR": len(pr.harness_errors)},
             "components": getattr(mod, "COMPONENTS", {}),
             "tree_hash": build.tree_hash(),
         },
